@@ -18,7 +18,7 @@ both ways of giving the column count (`numColumns = nc` explicit, `numColumns = 
 `C19_online`, `C19_identity`, `C19_errors`; `C19_treefn` for the double re-batching of
 `TreeFn._iterate` (model `treeFn`).  Not stated as theorems (covered by the correspondence only):
 the container kind of the emitted columns, and the `TypeError` branch for unsupported containers.
-Known finding F23 (`Assign` + `batch_size`) is outside `_iterate`: see `Witness/C19.lean`.
+Known finding F-C19-assign (`Assign` + `batch_size`) is outside `_iterate`: see `Witness/C19.lean`.
 -/
 namespace MlModel.C19
 open MlModel.Rebatch
